@@ -3,13 +3,13 @@
 wt=$1; cd $wt || exit 2
 git checkout -q -- src; git apply MUTANT/patch.diff || { echo "CONFIRM patch does not apply"; exit 1; }
 make -j8 >/dev/null 2>&1 || { echo "CONFIRM does not compile"; exit 1; }
-make -k check -j8 > /tmp/confirm_check.log 2>&1
-fails=$(grep -E "^# (FAIL|ERROR):" /tmp/confirm_check.log | awk '{s+=$3} END{print s+0}'); passes=$(grep -E "^# PASS:" /tmp/confirm_check.log | awk '{s+=$3} END{print s+0}')
+make -k check -j8 > /tmp/confirm_check.$(basename $wt).log 2>&1
+fails=$(grep -E "^# (FAIL|ERROR):" /tmp/confirm_check.$(basename $wt).log | awk '{s+=$3} END{print s+0}'); passes=$(grep -E "^# PASS:" /tmp/confirm_check.$(basename $wt).log | awk '{s+=$3} END{print s+0}')
 echo "CONFIRM suite with change: PASS=$passes FAIL+ERROR=$fails"
 build=$(cat MUTANT/BUILD | head -n 20)
-( cd $wt && bash -c "$build" ) > /tmp/confirm_demo_mut.log 2>&1; rc_mut=$?
+( cd $wt && bash -c "$build" ) > /tmp/confirm_demo_mut.$(basename $wt).log 2>&1; rc_mut=$?
 git checkout -q -- src; make -j8 >/dev/null 2>&1
-( cd $wt && bash -c "$build" ) > /tmp/confirm_demo_clean.log 2>&1; rc_clean=$?
+( cd $wt && bash -c "$build" ) > /tmp/confirm_demo_clean.$(basename $wt).log 2>&1; rc_clean=$?
 git apply MUTANT/patch.diff; make -j8 >/dev/null 2>&1
 echo "CONFIRM demo: with change rc=$rc_mut, without rc=$rc_clean"
-if [ "$fails" = "0" ] && [ "$rc_mut" != "0" ] && [ "$rc_clean" = "0" ]; then echo "CONFIRM OK"; else echo "CONFIRM NOT-OK"; tail -n 5 /tmp/confirm_demo_mut.log; tail -n 5 /tmp/confirm_demo_clean.log; fi
+if [ "$fails" = "0" ] && [ "$rc_mut" != "0" ] && [ "$rc_clean" = "0" ]; then echo "CONFIRM OK"; else echo "CONFIRM NOT-OK"; tail -n 5 /tmp/confirm_demo_mut.$(basename $wt).log; tail -n 5 /tmp/confirm_demo_clean.$(basename $wt).log; fi
